@@ -26,7 +26,7 @@ type C09Spec struct {
 	OnlyStep string    `json:"only_step,omitempty"`
 }
 
-var errKinds = []string{"ERR0", "ERR1", "ERR2", "ERR3", "EOF"}
+var errKinds = []string{"ERR0", "ERR1", "ERR2", "ERR3", "EOF", "TMP0", "TMP2", "ONCE0", "ONCE1"}
 
 func wordsOf(b []byte) []uint32 {
 	var w []uint32
@@ -151,11 +151,13 @@ func runC09(c *Ctx, si interface{}) {
 	}
 	// (0) same tape twice -> same result (no hidden source)
 	if want("repeat") {
-		again := run(TapeSpec{Mode: "raw", Seed: s.TapeSeed, Default: "random"})
-		if !sameResult(pilot, again) {
-			c.Violate("not-a-function-of-the-tape", "", "%s: the same source bytes gave %s and then %s", desc, pilot.brief(), again.brief())
-			narrow("repeat", nil)
-			return
+		for rep := 0; rep < 4; rep++ {
+			again := run(TapeSpec{Mode: "raw", Seed: s.TapeSeed, Default: "random"})
+			if !sameResult(pilot, again) {
+				c.Violate("not-a-function-of-the-tape", "", "%s: the same source bytes gave %s and then %s", desc, pilot.brief(), again.brief())
+				narrow("repeat", nil)
+				return
+			}
 		}
 	}
 	// (a) chunking: identical bytes, different read chunking
@@ -202,6 +204,35 @@ func runC09(c *Ctx, si interface{}) {
 	// healthy reference for the post-fault generation
 	healthySeed := mix(s.TapeSeed, "healthy")
 	ref := run(TapeSpec{Mode: "raw", Seed: healthySeed, Default: "random"})
+	// (b') a transient failure that hits the redraw after a rejected raw word
+	if want("redraw") {
+		r := Sub(s.TapeSeed, "redrawpick")
+		for tries := 0; tries < 3 && len(used) > 0; tries++ {
+			k := r.Intn(len(used))
+			words := append(append(append([]uint32{}, used[:k]...), 0xFFFFFFFF), used[k:]...)
+			for _, kind := range []string{"ONCE0", "ONCE1", "TMP0"} {
+				f := Fault{Read: k + 1, Kind: kind}
+				res := run(TapeSpec{Mode: "raw", Seed: s.TapeSeed, Words: words, Default: "random", Faults: []Fault{f}})
+				fired := 0
+				for kk, v := range res.Tape.Fired {
+					c.Fault(kk+"-after-rejected-word", int64(v))
+					fired += v
+				}
+				if fired == 0 {
+					continue
+				}
+				c.Distinct(desc, s.TapeSeed, "redraw", kind, k)
+				if k+1 < len(res.Tape.Reads) {
+					c.Probe("fault_on_the_read_after_a_maximal_raw_word", 1)
+				}
+				if res.Kind == "ok" {
+					c.Violate("password-after-read-error", "password-after-transient-error-on-redraw", "%s: read %d returned the raw word 0xFFFFFFFF, read %d failed once (%s) and Generate still returned %q", desc, k, k+1, kind, res.Pw.S)
+					narrow("redraw", nil)
+					return
+				}
+			}
+		}
+	}
 	// (b) failure at read k
 	if want("fault") {
 		r := Sub(s.TapeSeed, "faultpick")
